@@ -45,6 +45,12 @@ CHECKS["C18"] = dict(
    design_ref="DESIGN.md 4.7, 6 (C18)",
    note="Trusted: TLC, Json module, harness logging and the verif accessors (VerifNext, VerifLevel). Node levels are observed, not controlled. Bounds: exhaustive 3 segments/4-5 items/3 levels, 2-3 lists over 2-3 values to depth 5-6; traces <= 6 segments/44 items, <= 4 lists.")
 
+CHECKS["C19"] = dict(
+   technique="TLA+ operators Framing.tla evaluated exhaustively by TLC over a small alphabet; TLC trace validation recomputing the framing of recorded real writer/reader runs byte for byte",
+   text="Framing.tla defines Encode/Decode (both format versions), the XOR-bag checksum and the KV layout as pure operators; TLC evaluates round trip, truncation detection, checksum equality and KV inverses for all streams of the small instance (bytes 0/1/255 that look like prefixes and terminators). Real FileWriter/FileReader runs (items 1..70000 bytes, adversarial contents, tiny disk blocks) are recorded with the file bytes and validated by TLC: the file must equal Encode(items), the decoded items the written ones, end-of-stream reported, reader checksum = writer checksum; the v0 reader is fed spec-conformant v0 files. For a pure codec the specification serves as an executable oracle; exhaustive small scope + byte-exact validation of recorded runs is the strongest this technique offers here.",
+   design_ref="DESIGN.md 4.7, 6 (C19), 9",
+   note="Trusted: TLC, Json module, the verif accessors VerifNewFileWriter/Reader/VerifNewItem. CRC32 uninterpreted (checksums compared implementation-to-implementation). Bounds: exhaustive <=3 items of <=2-3 bytes over {0,1,255}; traces: lengths 1..70000, <=5 items per stream.")
+
 NOT_YET = "check not built yet (work in progress; see DESIGN.md section 8.1 build order)"
 
 def main():
